@@ -51,7 +51,7 @@ func preconditionFirstRule(c *Ctx, pr *PropertyRun, prop string) {
 		var conds, sans []*ssa.Call
 		for _, f := range withClosures(fn) {
 			eachCall(f, func(site ssa.CallInstruction) {
-				name := calleeName(site.Common())
+				name := fsPrimitiveName(p, site.Common())
 				if destructiveCalls[name] && f == fn {
 					destructive = append(destructive, site)
 				}
